@@ -32,5 +32,5 @@ def stable_qr(mat):
         # force zero diagonals to have jitter added to them.
         Rdiag_sign[Rdiag_sign == 0] = 1.0
         jitter_diag = 1e-6 * Rdiag_sign * zeroish.to(Rdiag)
-        R = R + torch.diag_embed(jitter_diag)
+        R = R + torch.nn.functional.pad(torch.diag_embed(jitter_diag), (0, R.size(-1) - jitter_diag.size(-1)))
     return Q, R
